@@ -320,21 +320,16 @@ def _eval_u64(desc, word):
     raise ValueError(nm)
 
 
-def c13l(prog, rep, R="C13.l"):
-    """C13.l — sibling agreement of a word-at-a-time fast path with the bytewise scanner behind it.  Where a scanner of the lexer loads
-    several bytes of the input as one integer (`u64::from_ne_bytes` ..) and steps over the whole word when a bit trick says so, every
-    byte value the trick accepts is a byte the bytewise predicate of the same function accepts: the conditions on the path that goes
-    on with the next word are evaluated for every byte value in every lane (the other lanes holding a byte both accept).  A nibble
-    trick for digits that also passes `* + , - . /` takes `1234567+7` for one number."""
+def swar_scanners(prog, prefix):
+    """[(body, bytes accepted by the word trick only, error)] for every function under `prefix` that loads a word of input in a loop"""
     from table import Table, TooComplex, run_concrete, eval_desc, vdesc, Unknown
-    n = 0
+    out = []
     for b in prog.bodies.values():
-        if not b.npath.startswith(LX) or "::tests::" in b.npath or "avx2" in b.npath or not b.loops():
+        if not b.npath.startswith(prefix) or "::tests::" in b.npath or "avx2" in b.npath or not b.loops():
             continue
         loads = [c for c in b.calls() if (c.callee or "").split("::")[-1] in ("from_ne_bytes", "from_le_bytes", "from_be_bytes") and "u64" in str(c.t.get("callee_args", "")) + (c.callee or "") + b.locals[c.t["dst"]["l"]]["ty"]]
         if not loads:
             continue
-        n += 1
         # the bytewise predicate of the same function: a bool closure over one byte
         preds = []
         for x in prog.bodies.values():
@@ -369,11 +364,26 @@ def c13l(prog, rep, R="C13.l"):
                                 bad.append(v)
         except (TooComplex, Unknown, ValueError, IndexError, KeyError) as e:
             err = str(e)[:80]
+        out.append((b, sorted(set(bad)), err))
+    return out
+
+
+def c13l(prog, rep, R="C13.l"):
+    """C13.l — sibling agreement of a word-at-a-time fast path with the bytewise scanner behind it.  Where a scanner of the lexer loads
+    several bytes of the input as one integer (`u64::from_ne_bytes` ..) and steps over the whole word when a bit trick says so, every
+    byte value the trick accepts is a byte the bytewise predicate of the same function accepts: the conditions on the path that goes
+    on with the next word are evaluated for every byte value in every lane (the other lanes holding a byte both accept).  A nibble
+    trick for digits that also passes `* + , - . /` takes `1234567+7` for one number."""
+    found = swar_scanners(prog, LX)
+    for b, bad, err in found:
         rep.check(not bad and err is None, R, "word-at-a-time:%s" % short(b.npath),
                   "%s steps over a whole word of input when a bit trick accepts it, but the trick %s: a token boundary then depends on how the text is aligned in 8-byte words"
                   % (short(b.npath), ("cannot be evaluated (%s)" % err) if err else "also accepts the bytes %s, which the bytewise scanner of the same function does not" % sorted({chr(v) if 32 <= v < 127 else hex(v) for v in bad})[:8]),
-                  where="%s:%d" % (b.file, b.line), instance={"scanner": short(b.npath), "accepted_by_the_trick_only": sorted(set(bad))[:8]})
-    rep.note("C13.l: %d word-at-a-time scanners in the lexer" % n)
+                  where="%s:%d" % (b.file, b.line), instance={"scanner": short(b.npath), "accepted_by_the_trick_only": bad[:8]})
+    rep.note("C13.l: %d word-at-a-time scanners in the lexer" % len(found))
+    # positive fixture: the rule is dormant on the unchanged tree, so it is exercised on the canary crate in every run
+    import canary as _canary
+    _canary.swar(rep, R)
 
 
 def c13a(prog, rep):
